@@ -44,7 +44,7 @@ func C04(r *core.Report) {
 	c04CollisionDetectionExact(r)
 	c04ValueOnlyOnHashMatch(r)
 	c04LegacyValueWidth(r)
-	r.Floor("C04.R10", 4)
+	r.Floor("C04.R10", 3)
 	r.Floor("C04.R9", 3)
 	r.Floor("C04.R8", 3)
 	r.Floor("C04.R7", 9)
